@@ -349,7 +349,7 @@ func c18GenCase(rt *rapid.T) c18Case {
 
 func TestC18(t *testing.T) {
 	c := vf.New(t, "C18", "enumeration: every address FF10-FF3F x every value in a fixed template (power-cycle, write while on, run, power off, same write while off, power on) with all 20 registers, NR52 and (channel 3 off) all 16 wave cells read back after every step; "+
-		"rapid: histories of 1-80 chunks of 1-3 operations (register writes of arbitrary values, NR52 writes, wave RAM writes, writes to unused addresses, runs of 0-40000 machine cycles), same read-back after every operation; plus every channel left playing for 70 000 cycles with envelope/sweep/length values that reach their end stops. "+
+		"rapid: histories of 1-80 chunks of 1-3 operations (register writes of arbitrary values, NR52 writes, wave RAM writes, writes to unused addresses, runs of 0-40000 machine cycles), same read-back after every operation; plus every channel left playing for 70 000 cycles with envelope/sweep/length values that reach their end stops, and channel 3 stopped and restarted from the stopped state at the fastest frequencies. "+
 		"Non-trivial: the history contains a register write made with power on (followed by its read-back) or a power-off that follows such writes. Distinct = hash of the operation list (enumeration: distinct by construction).")
 	defer c.Flush()
 	c.RunReplays()
@@ -433,6 +433,66 @@ func TestC18(t *testing.T) {
 		}
 		c.Bulk("enum:playing-channel", n, n)
 		c.Exhaustive("each channel started with 10 envelope/level values x sweep settings x 4 length values x 4 trigger values and left playing for 70 000 and, after a re-trigger, 35 000 machine cycles; every register read back after every step")
+	})
+
+	// channel 3 stopped (DAC off, power off, or length expiry) after playing for a chosen number of cycles, then
+	// started again from the stopped state: whatever its frozen timer and position are, wave RAM - compared
+	// whenever channel 3 is off - keeps what was written (only a re-trigger of a PLAYING channel 3 is excused)
+	c.Sub("ch3-stop-restart", func(t *testing.T) {
+		var n int64
+		idx := 0
+		failed := 0
+		for _, f := range []int{0x7ff, 0x7fe, 0x7fd, 0x7fc, 0x7f8, 0x7e0, 0x700, 0x400, 0x000} {
+			for _, play := range []int{1, 2, 3, 4, 5, 6, 7, 8, 9, 17, 33, 100, 1023, 4097} {
+				for stop := 0; stop < 3; stop++ {
+					for _, second := range []int{0, 3, 64} {
+						idx++
+						if !c.Env.Mine(idx) {
+							continue
+						}
+						ops := []c18Op{{K: "w", A: 0xff26, V: 0x00}, {K: "w", A: 0xff26, V: 0x80}}
+						for i := 0; i < 16; i++ {
+							ops = append(ops, c18Op{K: "w", A: 0xff30 + uint16(i), V: uint8(0x11*i + idx)})
+						}
+						start := func(v4 uint8) {
+							ops = append(ops, c18Op{K: "w", A: 0xff1a, V: 0x80}, c18Op{K: "w", A: 0xff1c, V: 0x20}, c18Op{K: "w", A: 0xff1d, V: uint8(f)}, c18Op{K: "w", A: 0xff1e, V: v4 | uint8(f>>8)})
+						}
+						switch stop {
+						case 0: // DAC off
+							start(0x80)
+							ops = append(ops, c18Op{K: "run", N: play}, c18Op{K: "w", A: 0xff1a, V: 0x00})
+						case 1: // power off and on again
+							start(0x80)
+							ops = append(ops, c18Op{K: "run", N: play}, c18Op{K: "w", A: 0xff26, V: 0x00}, c18Op{K: "run", N: second}, c18Op{K: "w", A: 0xff26, V: 0x80})
+						default: // length expiry: 256-255 = 1 length clock away
+							ops = append(ops, c18Op{K: "w", A: 0xff1b, V: 0xff})
+							start(0xc0)
+							ops = append(ops, c18Op{K: "run", N: 4200 + play})
+						}
+						ops = append(ops, c18Op{K: "run", N: second})
+						start(0x80)
+						ops = append(ops, c18Op{K: "run", N: 2 + play%5}, c18Op{K: "w", A: 0xff1a, V: 0x00}, c18Op{K: "run", N: 1})
+						cas := c18Case{Ops: ops}
+						r := c18Exec(cas)
+						n++
+						if idx%97 == 0 {
+							c.Sample("enum:ch3-stop-restart", cas)
+						}
+						if r.err != nil && !c.Fail("apuregs", r.sig, r.err.Error(), cas) {
+							failed++
+							if failed <= 3 {
+								t.Errorf("%v", r.err)
+							}
+							if failed > 50 {
+								return
+							}
+						}
+					}
+				}
+			}
+		}
+		c.Bulk("enum:ch3-stop-restart", n, n)
+		c.Exhaustive("channel 3 at 9 frequencies (the five fastest included) played for 14 durations, stopped by DAC-off / power cycle / length expiry, restarted from the stopped state after 0, 3 or 64 cycles and stopped again; wave RAM and all registers read back after every step")
 	})
 
 	c.Rapid("histories", 8000, 200000, func(rt *rapid.T) {
